@@ -37,7 +37,7 @@ Read ==
        /\ swpc' = [swpc EXCEPT ![C] = Phase(e)]
        /\ buf' = [buf EXCEPT ![C].err = IF e.ep = "err" THEN RunsOf(e) ELSE <<>>]
        /\ wire' = <<Run(C, "out", 0, 0)>>                      \* not drained yet
-       /\ UNCHANGED <<sent, statusSent, combine, moved, tpc, status>>
+       /\ UNCHANGED <<sent, statusSent, combine, moved, tpc, status, pstate, shut>>
        /\ bad' = Fails(RightChannel', "P_right_channel")
                  \cup Fails(RightStream', "P_right_stream")
                  \cup Fails(CombinedMeansNoStderr', "P_stderr_after_combine")
@@ -51,7 +51,7 @@ Final ==
   /\ sent' = [sent EXCEPT ![C] = [out |-> T.sent.out, err |-> T.sent.err]]
   /\ statusSent' = [statusSent EXCEPT ![C] = T.status_sent]
   /\ status' = [status EXCEPT ![C] = T.status_got]
-  /\ UNCHANGED <<got, swpc, combine, moved, tpc>>
+  /\ UNCHANGED <<got, swpc, combine, moved, tpc, pstate, shut>>
   /\ bad' = Fails(OutInOrder', "P_stdout_order")
             \cup Fails(ErrInOrder', "P_stderr_order")
             \cup Fails(Lossless', "P_lossless")
